@@ -102,8 +102,8 @@ func runConcurrent(t *testing.T, w *world) {
 
 func burst(w *world, c *kit.Case) {
 	r := c.R
-	cfg := config{Flavour: kit.Choose(r, flavours), E: kit.Choose(r, []time.Duration{0, 7 * time.Second, 20 * time.Second, 100 * time.Second, time.Hour}),
-		NE: kit.Choose(r, nfExps), StrPK: r.Chance(0.3)}
+	cfg := config{Flavour: kit.Choose(r, flavours), StrPK: r.Chance(0.3)}
+	cfg.setExpiries(kit.Choose(r, burstExps), kit.Choose(r, nfExps))
 	h := newHist(w, c, cfg)
 	if h.dead {
 		return
